@@ -8,7 +8,7 @@ from . import httplib as H
 OCAML = H.OCAML
 GO = H.GO
 PROP = "props/C13.v"
-PROOFS = H.PROTO_PROOFS + ["proofs/HttpProgress.v"] + H.MODEL_FILES
+PROOFS = H.PROTO_PROOFS + ["proofs/HttpProgress.v", "proofs/HttpMeasure.v"] + H.MODEL_FILES
 
 
 def check_equal(run):
@@ -94,9 +94,14 @@ def run(run):
     cov["traces_validated_against_impl"] += eq_stats.get("eq", 0)
     cov["exhaustive"] = False
     run.assumptions += ["net/http.Server, the socket table and ServeMux are modelled (abstract network, oracle), not verified",
-                        "C13_equal_iff needs the ACTIVE configuration to be path-duplicate-free (it is being served, so "
-                        "ServeMux accepted it); a NEW configuration with duplicate paths is C19's business",
-                        "progress (C13_terminates) is 'no stuck state + measure', not liveness under fairness"]
+                        "the pure half needs the ACTIVE configuration to be path-duplicate-free; C13_served_config_nodup / "
+                        "C13_no_stale_server prove it from the protocol under mux_sound (the ServeMux refuses a repeated pattern); "
+                        "a NEW configuration with duplicate paths is C19's business",
+                        "termination (C13_terminates) is a bound on the number of implementation steps by a decreasing measure; the "
+                        "returns of the two external calls (configuration callback, http.Server.Shutdown) count as implementation "
+                        "steps: that they do return is assumed (C14 bounds Shutdown)",
+                        "a callback error wrapping the exported ErrOldConfig takes the unchanged path (code and model): that failure "
+                        "is not visible (C13_errold_is_unchanged)"]
 
 
 def replay(path):
